@@ -155,6 +155,91 @@ impl Sub for Freshness {
   }
 }
 
+// ---------------------------------------------------------------- histories during which the OS random source starts failing
+
+/// `attempts` builds in a helper process whose getrandom() serves `ok` key-sized requests and then fails for good
+/// (LD_PRELOAD shim tools/failrandom.c).
+#[derive(Clone, Debug, Serialize, Deserialize)]
+pub struct RngFailHistory {
+  pub proto: Proto,
+  pub layer: Layer,
+  pub ok: u32,
+  pub attempts: u32,
+}
+
+pub struct RngFailure;
+
+/// Body of `pv c10-rngfail <version 0..4> <layer 0|1> <attempts>`: one line per attempt, `T <nonce>` or `E`.
+pub fn rngfail_child_main(args: &[String]) -> i32 {
+  let num = |i: usize| args.get(i).and_then(|s| s.parse::<u32>().ok()).unwrap_or(0);
+  let p = Proto::LOCAL[(num(0) % 4) as usize];
+  let layer = if num(1) == 0 { Layer::Generic } else { Layer::Prelude };
+  let km = keys::material(p, &[42u8; 32]);
+  let lk = km.lib().expect("valid key");
+  let mut out = String::new();
+  for _ in 0..num(2) {
+    match crate::engine::catch(|| build_one(p, layer, &lk)) {
+      Ok(Some(n)) => out.push_str(&format!("T {}\n", hex::encode(n))),
+      Ok(None) => out.push_str("E\n"),
+      Err(_) => out.push_str("P\n"),
+    }
+  }
+  print!("{out}");
+  0
+}
+
+impl Sub for RngFailure {
+  type Case = RngFailHistory;
+  fn name(&self) -> String {
+    "C10/histories-with-a-failing-random-source".into()
+  }
+  fn check(&self, c: &RngFailHistory, cl: &mut Classes) -> Verdict {
+    let p = c.proto;
+    let lib = std::env::var("PV_FAILRANDOM").map(std::path::PathBuf::from).unwrap_or_else(|_| verif_dir().join(".work").join("libfailrandom.so"));
+    let exe = match std::env::current_exe() {
+      Ok(e) if lib.exists() => e,
+      _ => {
+        cl.tag("fault-injection-shim-not-built");
+        return Verdict::Discard;
+      }
+    };
+    let vi = Proto::LOCAL.iter().position(|q| *q == p).unwrap_or(3);
+    let out = match std::process::Command::new(exe)
+      .args(["c10-rngfail", &vi.to_string(), if c.layer == Layer::Generic { "0" } else { "1" }, &c.attempts.to_string()])
+      .env("LD_PRELOAD", &lib)
+      .env("PV_RNG_OK", c.ok.to_string())
+      .output()
+    {
+      Ok(o) => o,
+      Err(_) => return Verdict::Discard,
+    };
+    let text = String::from_utf8_lossy(&out.stdout).to_string();
+    let lines: Vec<&str> = text.lines().collect();
+    if out.status.code() != Some(0) || lines.len() != c.attempts as usize {
+      cl.tag("helper-failed");
+      return Verdict::Discard;
+    }
+    let tokens: Vec<&str> = lines.iter().filter_map(|l| l.strip_prefix("T ")).collect();
+    let failures = lines.iter().filter(|l| **l == "E").count();
+    let panics = lines.iter().filter(|l| **l == "P").count();
+    cl.tag(format!("{}:{}:ok={}", p.label(), c.layer.label(), c.ok));
+    cl.tag(format!("builds: {} returned a token, {} an error, {} panicked", if tokens.is_empty() { "none" } else { "some" }, if failures == 0 { "none" } else { "some" }, if panics == 0 { "none" } else { "some" }));
+    cl.nontrivial(failures + panics > 0);
+    // whatever the builder does once randomness is unavailable (fail, or draw on a generator seeded earlier): the tokens
+    // it DOES return must still carry pairwise different nonces, none of them the all-zero buffer nothing was written to
+    let mut seen = std::collections::HashSet::new();
+    for n in &tokens {
+      if n.bytes().all(|b| b == b'0') && matches!(p, Proto::V3L | Proto::V4L) {
+        vio!("C10:zero-nonce-after-rng-failure:{}:{}", p.label(), c.layer.label(); "with the OS random source failing after {} requests a token was returned whose nonce is all zero ({} attempts: {} tokens, {} errors)", c.ok, c.attempts, tokens.len(), failures);
+      }
+      if !seen.insert(*n) {
+        vio!("C10:nonce-repeated-after-rng-failure:{}:{}", p.label(), c.layer.label(); "with the OS random source failing after {} requests, nonce {} was used for two of the {} tokens returned ({} attempts, {} errors)", c.ok, n, tokens.len(), c.attempts, failures);
+      }
+    }
+    Verdict::Pass
+  }
+}
+
 // ---------------------------------------------------------------- histories whose builds run at the same time
 
 /// `threads` threads build `per_thread` tokens each, at the same time, under one key with identical claims.
@@ -364,7 +449,7 @@ static BUILDS: std::sync::atomic::AtomicU64 = std::sync::atomic::AtomicU64::new(
 static DISTINCT: std::sync::atomic::AtomicU64 = std::sync::atomic::AtomicU64::new(0);
 
 pub fn subs() -> Vec<Box<dyn DynSub>> {
-  vec![Box::new(Freshness), Box::new(AcrossFork), Box::new(Concurrent)]
+  vec![Box::new(Freshness), Box::new(AcrossFork), Box::new(Concurrent), Box::new(RngFailure)]
 }
 
 pub fn run(ctx: &Ctx) -> EvidenceMeta {
@@ -396,6 +481,10 @@ pub fn run(ctx: &Ctx) -> EvidenceMeta {
     .flat_map(|proto| [Layer::Generic, Layer::Prelude].into_iter().flat_map(move |layer| [(0u32, 50u32), (1, 50), (7, 200)].into_iter().map(move |(pre, post)| ForkHistory { proto: *proto, layer, pre, post })))
     .collect();
   jobs.push(Box::new(move || ctx.enumerate(af, fork_cases.into_iter(), false)));
+  // the OS random source fails after 0 / 1 / 5 key-sized requests (fault injection in a helper process)
+  let rf = &RngFailure;
+  let rng_cases: Vec<RngFailHistory> = Proto::LOCAL.iter().flat_map(|proto| [Layer::Generic, Layer::Prelude].into_iter().flat_map(move |layer| [0u32, 1, 5].into_iter().map(move |ok| RngFailHistory { proto: *proto, layer, ok, attempts: 12 }))).collect();
+  jobs.push(Box::new(move || ctx.enumerate(rf, rng_cases.into_iter(), false)));
   // builds that run at the same time on 8 / 16 threads (by design, not by the accident of the job scheduler)
   let cc = &Concurrent;
   let per_thread = ctx.n(2500, 12_000) as u32;
@@ -417,6 +506,7 @@ pub fn run(ctx: &Ctx) -> EvidenceMeta {
            Invariant over the history: the nonce fields (first 32, v2 24, decoded payload bytes) are pairwise distinct, the tokens are pairwise distinct, every one of the 256/192 nonce bit positions is 1 in N/2 +- sqrt(30 N) builds \
            (Hoeffding: a uniform source violates this with probability < 2^-70 over all positions and histories) and every nonce byte position takes >= 128 distinct values. \
            Concurrent histories: 8 / 16 threads released by a barrier build 2500 (thorough 12 000) tokens each at the same time under one key - no nonce twice in the union. \
+           Histories with a failing random source: getrandom() serves 0 / 1 / 5 key-sized requests and then fails for good (LD_PRELOAD fault injection in a helper process); whatever the builder then does, the tokens it still returns carry pairwise different, non-zero nonces. \
            Histories across fork(): pre in {{0,1,7}} builds, then the process forks and parent and child each build 50/200 more under the same key - no nonce may occur twice in the union. \
            An 'evaluation' is one history; builds_total / distinct_nonces_total count the builds. Non-trivial = N >= 1000; distinct by (version, builder, mode)."),
     assumptions: vec!["observes the OS random generator (that is the property); 'unpredictable' is not decidable by observation - a weak but equidistributed generator passes".into()],
